@@ -12,6 +12,8 @@ _HERE = os.path.dirname(os.path.abspath(__file__))
 # group B (revolut2, revolut, wise, swissquote, interactivebrokers: all modelled) registers the generator "C13b"
 # in harness/c13b.go; it is planned only when that file is present.  Importers not modelled: none.
 HAS_B = os.path.exists(os.path.join(_HERE, "..", "harness", "c13b.go"))
+# the reader tie C13.csv (Go's encoding/csv against Model/Csv.v)
+HAS_CSV = os.path.exists(os.path.join(_HERE, "..", "harness", "c13csv.go"))
 
 RULE = ("per importer (ch.swisscard2, ch.viac, ch.cumulus, ch.postfinance, ch.swisscard, ch.supercard) generated statements "
         "in the bank's format: 0-40 rows in either date order, dates across month/year ends and leap days, debits and "
@@ -150,6 +152,8 @@ def plan(tier, seed):
     if HAS_B:
         p.append(("C13b", seed, n, []))
         p.append(("C13bfiles", seed, 40 if tier == "quick" else 2000, []))
+    if HAS_CSV:
+        p.append(("C13csv", seed, 10000 if tier == "quick" else 300000, []))
     return p
 
 
@@ -157,6 +161,8 @@ def search_plan(seed):
     p = [("C13a", seed + 100 + k, 300, []) for k in range(2)]
     if HAS_B:
         p += [("C13b", seed + 100 + k, 300, []) for k in range(2)]
+    if HAS_CSV:
+        p.append(("C13csv", seed + 100, 20000, []))
     return p
 
 
@@ -166,6 +172,10 @@ def _flags(c):
 
 def nontrivial(c):
     f = _flags(c)
+    if c.op == "C13.csv":
+        # at least two records read, one of them from a quoted field
+        o = c.observed or ""
+        return o.startswith("OK ") and o.count(";") >= 1 and "22" in c.input.split(" | ")[-1]
     if f.get("kind") != "wf":
         return False
     facts = f.get("facts", "-")
@@ -176,6 +186,13 @@ def distribution(cases):
     d = {}
     for c in cases:
         f = _flags(c)
+        if c.op == "C13.csv":
+            e = d.setdefault("csv", {})
+            for k in ("kind:" + f.get("kind", "?"), "outcome:" + (c.observed or "").split(" ", 1)[0],
+                      "lazy=%s trim=%s" % (f.get("lazy"), f.get("trim")), "fpr:" + ("neg" if f.get("fpr", "0").startswith("-") else "zero" if f.get("fpr") == "0" else "pos"),
+                      "roundtrip-checked" if f.get("exp", "-") != "-" else "no-exp"):
+                e[k] = e.get(k, 0) + 1
+            continue
         imp = f.get("imp", c.op)
         e = d.setdefault(imp, {"wf": 0, "mal": 0, "rows": 0, "OK": 0, "ERR": 0, "PANIC": 0, "newline_text": 0, "quote_in_output": 0})
         if f.get("note", "-") != "-":
